@@ -1,4 +1,4 @@
 --------------------------------- MODULE Ccel_MC ---------------------------------
 EXTENDS Ccel, Json
-ExportCase == (pc \in {"verify", "prior"} /\ result = "none" /\ (pc = "verify" => prior = "none")) => PrintT(<<"CASE", ToJson([v |-> v, p |-> p, f |-> f, lvl |-> lvl, ld |-> ld, cf |-> cf, prior |-> prior])>>)
+ExportCase == (pc \in {"verify", "prior"} /\ result = "none" /\ (pc = "verify" => prior = "none")) => PrintT(<<"CASE", ToJson([v |-> v, p |-> p, f |-> f, lvl |-> lvl, ld |-> ld, cf |-> cf, prior |-> prior, lg |-> lg])>>)
 =================================================================================
